@@ -480,8 +480,15 @@ func Run(cfg Config, main func()) Result {
 			case <-tm.C:
 				// nothing happened for IdleLimit of simulated time; that is a deadlock
 				// unless somebody is in a (long) Sleep, which will end by itself
-				if atomic.LoadInt32(&S.sleeping) == 0 {
-					S.res.Deadlock = true
+				// a goroutine may have woken up at the very same simulated instant: let it settle first
+				synctest.Wait()
+				select {
+				case ev := <-S.events:
+					take(ev)
+				default:
+					if atomic.LoadInt32(&S.sleeping) == 0 {
+						S.res.Deadlock = true
+					}
 				}
 				raceOn()
 			}
